@@ -3,11 +3,35 @@
 import json, subprocess, sys
 CLAIMED = {
  "C01": ("exploration", "§4 C01", "deterministic simulation: edit-history/fault/map-order search, recover + tick-budget oracle",
-   "Seeded search over buffer edit histories (every sampled prefix and single-token edit of generated configurations), reader/hook/staleness faults and map-order schedules; every public query entry point runs at the visited cursor offsets inside a simulator task; a recovered panic, a tick-budget overrun or a worker process killed by a fatal error is a violation. Exploration, not proof: totality over an infinite input space can only be sampled; violations replay exactly from the minimised scenario file.",
+   "Seeded search over buffer edit histories (sampled prefixes and single-token edits of generated configurations, half-typed fragments), reader/hook/staleness faults and map-order schedules; every public query entry point runs at the visited cursor offsets inside a simulator task; a recovered panic, a tick-budget overrun or a worker process killed by a fatal error is a violation. Exploration, not proof: totality over an infinite input space can only be sampled; violations replay exactly from the minimised scenario file.",
    "Trusts the stub language server as a model of a deployment and the generator's reach (schemas/config shapes listed in DESIGN.md §3); map order is owned only inside hcl-lang's sources."),
+ "C02": ("exploration", "§4 C02", "deterministic simulation supplying states (typed/edited buffers after the indexer caught up, multi-path worlds); per-result range invariant by reflection walk",
+   "A reflection walk finds every hcl.Range in every result of every query at quiescent states; each must name a file of the path it is reported for, satisfy 0<=start<=end<=len and carry the independently recomputed line/column (grapheme clusters) of its byte offsets. The simulator contributes the states and the multi-path attribution; the invariant itself is a per-result monitor. Two families of genuine findings (zero End copied from the parser's recovery; byte-based column arithmetic) are recorded in KNOWN_FINDINGS.json.",
+   "Ranges the caller put into the schema (Targets.Range, DirectOrigin.TargetRange) and ranges produced by the caller's lens functions are exempt as the statement says; columns are only compared at grapheme boundaries."),
  "C03": ("exploration", "§4 C03", "deterministic simulation: differential execution under controlled map-iteration schedules and query histories",
    "Each query is executed under the canonical map order on a fresh decoder, then under 8 other map-order schedules (desc, rotate, shuffle, pin), after a sequence of other queries on a long-lived decoder, and again on a fresh decoder; canonical results (element order kept, diagnostics as multisets) must be identical. The map-order seam turns 'some runtime order breaks it' into a deterministic, replayable failure.",
-   "Map ranges inside hcl/v2, go-cty and the standard library keep the runtime's order (they sort where it matters); only hcl-lang's 59 range-over-map sites are scheduled."),
+   "Map ranges inside hcl/v2, go-cty and the standard library keep the runtime's order (they sort where it matters); only hcl-lang's range-over-map sites are scheduled."),
+ "C04": ("exploration", "§4 C04", "deterministic simulation: query histories under faults with a deep structural snapshot oracle",
+   "A reflection snapshot (unexported fields, pointer-aliasing shape, func values by symbol, package-level variables) of every PathContext, the DecoderContext and the library's package variables is compared across a long history of queries on one decoder - including error-returning queries under reader/hook faults, the limit knob and prefill - after every 16th query (every query when replaying), and the parsed syntax trees at the end of each check.",
+   "Writes that store the value already present are invisible to a snapshot (they are C05's race oracle's business); spare slice capacity is not part of the snapshot."),
+ "C05": ("exploration", "§4 C05", "deterministic simulation: cooperative scheduler over real goroutines with the race detector as oracle (hand-off synchronisation hidden), result and snapshot comparison",
+   "Rounds of 2-16 tasks issue mixed queries on decoders sharing one reader/context/schema; tasks run one at a time and are pre-empted at instrumented tick points chosen by the scenario. The simulator is built with -race and all synchronisation events inside tasks are ignored, so any conflicting access by two tasks is reported whatever interleaving was picked, in a fresh process per scenario so that detection does not depend on what ran before; results must equal the same query run alone; shared roots must be unchanged after the round.",
+   "Inherits the race detector's bounded per-word history (4 cells per 8 bytes): a conflict can be evicted by unrelated accesses to the same word; reports whose both stacks end in the standard library's pooled objects (fmt, regexp) are artefacts of ignoring sync.Pool and are filtered."),
+ "C06": ("exploration", "§4 C06", "deterministic simulation: states + limit knob + hook faults; per-candidate contract monitor and differential truncation oracle",
+   "CompletionAtPos at the visited offsets of quiescent states, prefill on and off, limit knob in {1,2,3,7,100}: every candidate's edit must name the requested file, be well formed, start at or before the cursor and reach it (blanks aside), plain text without tab stops, snippet with consecutive stops each at most once; len<=limit; a list marked complete must not grow when the limit is lifted (differential run) and must not belong to a top-level attribute with a registered hook.",
+   "The limit knob sets the unexported maxCandidates by reflection (skipped if the field disappears); 'no hook may add more' is decided only for top-level attributes of cleanly parsed generated files."),
+ "C12": ("exploration", "§4 C12", "deterministic simulation supplying states; per-offset hover invariant against the renderer's node table",
+   "HoverAtPos at every offset of quiescent states: nothing/an error, or non-empty content with a range of the file that contains the cursor; on attribute names, block types and labels (positions known from the renderer of the generated configuration) the content names the element and the range is the whole attribute / the type keyword / the label.",
+   "Description text of the effective schema is not compared yet; 'innermost sub-expression' is checked as containment only."),
+ "C13": ("exploration", "§4 C13", "deterministic simulation: edit histories and stale reference sets; ordered/disjoint/non-empty/type-set invariant",
+   "SemanticTokensInFile on every state of typing histories, single-token edits and staleness windows (targets/origins collected from an older text), under varying map order: tokens sorted by start, pairwise disjoint, non-empty, inside the file and of an advertised type.",
+   "Exactness against a token model is not claimed by this check yet."),
+ "C14": ("fault_enumeration", "§4 C14", "deterministic simulation with exhaustive enumeration of reader faults (all subsets of failing paths x both failure shapes x Paths() order) against an outline model",
+   "SymbolsInFile is compared with an outline model computed from the hclsyntax tree directly (one symbol per attribute/block in source order, names, extents, tuple elements, literally keyed object items, child inside parent); Decoder.Symbols is run under every subset of failing paths (listed-but-unreadable and unlisted), under two Paths() orders and several query strings, and must return exactly the matching top-level symbols of the readable paths in Paths() order.",
+   "Worlds have 1-4 paths, so the fault space (<=2*16*2 configurations) is enumerated completely per state; JSON files are covered by C19."),
+ "C18": ("exploration", "§4 C18", "deterministic simulation: two-state history relation (translation edit, indexer catch-up) checked by mapping positions",
+   "For insertion points between top-level items and inserted blank/comment lines (incl. multi-byte, indented), every query at every sampled offset is run on the original and on the translated buffer after the indexer caught up; the original results mapped through the shift of the edit must equal the new ones (errors by type).",
+   "Insertion at byte 0 is replaced by the next insertion point (the root body range and the first item's range cannot be told apart by position); single-path worlds."),
 }
 NA = {
  "C17": "Copy() is a pure function of one value: no map-order dependence in its result, no reader, hook, interleaving, fault or history is involved, and half the statement quantifies over future struct fields (programs). Not a simulation target; its user-visible consequences are exercised under C01 (Copy panics) and C04/C05 (aliasing through which a query writes).",
